@@ -184,7 +184,9 @@ func runCase(c rcase, spurious *int64) (string, int) {
 func variants(bufLen int) []op {
 	v := []op{{opU8, 0}, {opU16, 0}, {opU32, 0}, {opU64, 0}, {opPeekU16, 0}}
 	seen := map[int]bool{}
-	for _, n := range []int{0, 1, 2, 3, 4, 5, 8, 9, bufLen, bufLen + 1} {
+	// lengths near the top of the integer range: position + length must not be computed in a way that wraps
+	const maxInt = int(^uint(0) >> 1)
+	for _, n := range []int{0, 1, 2, 3, 4, 5, 8, 9, bufLen, bufLen + 1, maxInt, maxInt - 1, maxInt - bufLen, 1 << 62, 1<<31 - 1, 1 << 32} {
 		if seen[n] {
 			continue
 		}
@@ -304,7 +306,9 @@ func main() {
 			for i := 0; i < nops; i++ {
 				o := op{Code: g.Intn(7)}
 				if o.Code >= opRead {
-					switch g.Intn(6) {
+					switch g.Intn(7) {
+					case 6:
+						o.N = []int{int(^uint(0) >> 1), int(^uint(0)>>1) - g.Intn(70000), 1 << 62, 1<<63 - 1 - (c.BufLen - rem), 1 << 32, 1<<31 - 1}[g.Intn(6)]
 					case 0:
 						o.N = rem
 					case 1:
@@ -345,7 +349,7 @@ func main() {
 	run.Add("failures_with_enough_octets_left(not_judged)", spurious)
 	run.Set("enumeration", map[string]interface{}{"depth": depth, "buffer_lengths": "0..12", "operation_variants_per_length": len(variants(12)),
 		"complete": true})
-	run.SetRule("complete enumeration of all operation sequences of depth ≤ d over {Uint8,Uint16,Uint32,Uint64,PeekUint16,Read(n),Peek(n)} with n ∈ {0,1,2,3,4,5,8,9,len,len+1} on buffers of 0..12 octets (every prefix counted as a sequence; non-trivial = contains at least one successful and one failing operation), plus seeded random sequences of ≤200 operations on buffers ≤70000 octets that are sub-slices of a larger canary-filled array; after EVERY operation the result, Len() and ReadCount() are compared with the shadow (buffer, position)")
+	run.SetRule("complete enumeration of all operation sequences of depth ≤ d over {Uint8,Uint16,Uint32,Uint64,PeekUint16,Read(n),Peek(n)} with n ∈ {0,1,2,3,4,5,8,9,len,len+1, MaxInt, MaxInt-1, MaxInt-len, 2^62, 2^31-1, 2^32} on buffers of 0..12 octets (every prefix counted as a sequence; non-trivial = contains at least one successful and one failing operation), plus seeded random sequences of ≤200 operations on buffers ≤70000 octets that are sub-slices of a larger canary-filled array; after EVERY operation the result, Len() and ReadCount() are compared with the shadow (buffer, position)")
 	run.Sample(map[string]interface{}{"buf_len": 3, "ops": "Uint16, Peek(2)→fail, Read(1), Uint8→fail", "kind": "one enumerated sequence"})
 	run.Assume("n ≥ 0 (a negative length is not 'a read of n octets')")
 	run.Assume("a failure although enough octets remain is not judged by this property (counted in counters)")
